@@ -76,8 +76,25 @@ def evaluate(case):
         dm = I.mk(case)
         dmaker = make(method)
         if method["name"] == "simus":
-            with I.quiet_fds():
-                res = dmaker.evaluate(dm, b=case.get("b"))
+            b = case.get("b")
+            import zlib
+            if b is not None and zlib.crc32(repr((b, case["matrix"][0])).encode()) & 1:
+                # the caller holds his bounds in an array of his own, which he has already used for another problem
+                # (the same criteria on another scale) and will use again: it must come back as it was
+                b_own = np.array(b, dtype=object)
+                other = I.mkdm(np.array(case["matrix"], dtype=float) * 8.0 + 1.0, list(case["objectives"]),
+                               weights=list(case["weights"]))
+                with I.quiet_fds():
+                    try:
+                        dmaker.evaluate(other, b=b_own)
+                    except Exception:  # noqa: BLE001
+                        pass
+                    res = dmaker.evaluate(dm, b=b_own)
+                if b_own.tolist() != list(b):
+                    return {"error": Err(97), "exc": f"SIMUS wrote into the caller's b: {b_own.tolist()} (given {b})"}
+            else:
+                with I.quiet_fds():
+                    res = dmaker.evaluate(dm, b=b)
         else:
             res = dmaker.evaluate(dm)
     except Exception as e:  # noqa: BLE001
